@@ -165,3 +165,82 @@ func TestC05Streamed(t *testing.T) {
 		}
 	})
 }
+
+// TestC05TrailerLate: the trailer section of a chunked response is written after the last chunk and
+// flushed later; in between the server closes the body stream, which is application code. A trailer set
+// from there (with hostile bytes) must not rewrite the section that is already queued: what follows the
+// last chunk is clean field lines for declared trailers and the empty line, nothing else.
+type trailerCloser struct {
+	lateReader
+	late string
+}
+
+func (r *trailerCloser) Close() error {
+	r.ctx.Response.Header.Trailer().Set("X-Late", r.late) //nolint:errcheck
+	return nil
+}
+
+var curTrailer struct {
+	size int
+	late string
+}
+
+func TestC05TrailerLate(t *testing.T) {
+	rec := ev.New("trailer-late-set")
+	s := srv.NewEcho(srv.Config{Setup: func(h *hserver.Hertz, echo app.HandlerFunc) {
+		h.GET("/t", func(c context.Context, ctx *app.RequestContext) {
+			ctx.Response.Header.Trailer().Set("X-Sig", strings.Repeat("s", curTrailer.size)) //nolint:errcheck
+			ctx.SetBodyStream(&trailerCloser{lateReader: lateReader{ctx: ctx, p: &streamedProg{}, data: []byte("firstsecond")}, late: curTrailer.late}, -1)
+		})
+	}})
+	defer s.Close()
+	rapid.Check(t, func(t *rapid.T) {
+		curTrailer.size = rapid.SampledFrom([]int{10, 3000, 4000, 4096, 4097, 5000, 9000, 20000}).Draw(t, "trailerSize")
+		curTrailer.late = genHostile(t, "late")
+		if rapid.Bool().Draw(t, "injection") {
+			curTrailer.late = "v\r\nX-Injected: 1\r\n\r\nHTTP/1.1 200 OK\r\nContent-Length: 3\r\n\r\nabc" + curTrailer.late
+		}
+		_, res, _ := s.Run([][]byte{[]byte("GET /t HTTP/1.1\r\nHost: a\r\nConnection: close\r\n\r\n")}, sconn.EOF)
+		big := curTrailer.size >= 4000
+		rec.Case(big, ev.HashString(fmt.Sprint(curTrailer.size), curTrailer.late), fmt.Sprintf("trailer-section-over-4k-%v", big))
+		if res.Panic != nil {
+			t.Fatalf("panic: %v", res.Panic)
+		}
+		h := strictLines(res.Output)
+		if h.err != "" {
+			t.Fatalf("the response is not a clean header block: %s\noutput: %.300q", h.err, res.Output)
+		}
+		const chunks = "b\r\nfirstsecond\r\n0\r\n"
+		if !strings.HasPrefix(h.body, chunks) {
+			t.Fatalf("body after the header block starts %.60q, want %q", h.body, chunks)
+		}
+		rest := h.body[len(chunks):]
+		end := strings.Index(rest, "\r\n\r\n")
+		if end < 0 && rest != "\r\n" {
+			t.Fatalf("the trailer section is not terminated: %.200q", rest)
+		}
+		section, after := "", ""
+		if rest != "\r\n" {
+			section, after = rest[:end], rest[end+4:]
+		}
+		if after != "" {
+			t.Fatalf("%d bytes follow the end of the message (trailer of %d bytes, late value %.40q): %.200q", len(after), curTrailer.size, curTrailer.late, after)
+		}
+		for _, l := range strings.Split(section, "\r\n") {
+			if l == "" {
+				continue
+			}
+			c := strings.IndexByte(l, ':')
+			name := ""
+			if c > 0 {
+				name = strings.ToLower(l[:c])
+			}
+			if name != "x-sig" && name != "x-late" || strings.ContainsAny(l, "\r\n") {
+				t.Fatalf("the trailer section has the line %.80q: not a field line of a trailer the application set (trailer of %d bytes, late value %.40q)", l, curTrailer.size, curTrailer.late)
+			}
+			if name == "x-sig" && l != "X-Sig: "+strings.Repeat("s", curTrailer.size) {
+				t.Fatalf("the X-Sig trailer arrived altered: %.80q...", l)
+			}
+		}
+	})
+}
